@@ -19,6 +19,9 @@ from .term import Rat
 from .units import DIMENSIONLESS, NO_UNIT, Unit
 
 
+_NOUNIT = object()
+
+
 def items_of(v):
     return v.members.get('items') if isinstance(v, SVar) else None
 
@@ -91,6 +94,11 @@ class WitnessModel(Model):
                 return shape
             if attr == 'ndim':
                 return len(dims)
+            if attr == 'size':
+                n = 1
+                for k in shape:
+                    n *= k
+                return n
             if attr == 'dims':
                 return tuple(dims)
             if attr == 'dim':
@@ -101,13 +109,19 @@ class WitnessModel(Model):
                 return v.unit
             if attr == 'dtype':
                 return v.dtype
-            if attr in ('values', 'value'):
-                return Opaque('values of a symbolic array')
+            if attr == 'values':
+                r = self._map(interp, v, lambda x: self.raw(interp, x, node, 'value'))
+                r.kind = 'raw'
+                return r
+            if attr == 'value':
+                raise RaiseSignal('DimensionError', node, interp.where(node), ('value of a non-scalar',))
+            if attr == 'variances':
+                return None
             return BoundModel(v, attr)
         if 'concrete' in v.members and attr == 'value':
             return v.members['concrete']
-        if attr in ('ndim', 'dims', 'sizes', 'shape') and v.members.get('dims') == []:
-            return {'ndim': 0, 'dims': (), 'sizes': {}, 'shape': ()}[attr]
+        if attr in ('ndim', 'dims', 'sizes', 'shape', 'size') and v.members.get('dims') == []:
+            return {'ndim': 0, 'dims': (), 'sizes': {}, 'shape': (), 'size': 1}[attr]
         return super().var_attr(interp, v, attr, node)
 
     def var_index(self, interp, v, key, node):
@@ -178,6 +192,17 @@ class WitnessModel(Model):
         return items_of(x) is not None or rows_of(x) is not None
 
     def binop(self, interp, op, a, b, node, inplace=False):
+        if op == 'matmul' and items_of(a) is not None and items_of(b) is not None:
+            if len(items_of(a)) != len(items_of(b)):
+                raise RaiseSignal('ValueError', node, interp.where(node), ('matmul: size mismatch',))
+            total = None
+            for x, y in zip(items_of(a), items_of(b), strict=True):
+                p = super().binop(interp, 'mul', x, y, node)
+                total = p if total is None else super().binop(interp, 'add', total, p, node)
+            if total is not None:
+                total.kind = 'raw'
+                total.members['dims'] = []
+            return total
         if self._is_arr(a) or self._is_arr(b):
             if op in ('and', 'or', 'xor'):
                 pyf = {'and': lambda p, q: p and q, 'or': lambda p, q: p or q, 'xor': lambda p, q: p != q}[op]
@@ -358,6 +383,54 @@ class WitnessModel(Model):
         r.members['dims'] = []
         return r
 
+    def sc_vector(self, interp, args, kwargs, node):
+        r = super().sc_vector(interp, args, kwargs, node)
+        r.members['dims'] = []
+        return r
+
+    def sc_array(self, interp, args, kwargs, node):
+        vals = kwargs.get('values')
+        if isinstance(vals, SVar) and items_of(vals) is not None:
+            dims = kwargs.get('dims')
+            dim = dims[0] if isinstance(dims, list | tuple) and dims else vals.members['dims'][0]
+            items = [super(WitnessModel, self).sc_scalar(interp, [x], {'unit': kwargs.get('unit', _NOUNIT)} if 'unit' in kwargs else {}, node) for x in items_of(vals)]
+            for it_ in items:
+                it_.members['dims'] = []
+            return self.array(interp, items, dim)
+        r = super().sc_array(interp, args, kwargs, node)
+        if isinstance(vals, SVar) and vals.members.get('dims') == [] and not kwargs.get('dims'):
+            r.members['dims'] = []
+        return r
+
+    def sc_vectors(self, interp, args, kwargs, node):
+        vals = kwargs.get('values')
+        if isinstance(vals, SVar) and rows_of(vals) is not None:
+            unit = self._unit_arg(interp, kwargs.get('unit'), node) if 'unit' in kwargs else DIMENSIONLESS
+            rows = rows_of(vals)
+            if any(len(items_of(r)) != 3 for r in rows):
+                raise RaiseSignal('DimensionError', node, interp.where(node), ('vectors need rows of 3 components',))
+            items = []
+            for r in rows:
+                comps = items_of(r)
+                if not all(isinstance(c.term, Rat) for c in comps):
+                    raise AnalysisError(f'vector component unknown at {interp.where(node)}')
+                v = self.new(interp, T.as_vectors(*[c.term for c in comps]) * unit.scale(), unit, 'vector3')
+                v.members['dims'] = []
+                items.append(v)
+            dims = kwargs.get('dims') or ['vectors']
+            return self.array(interp, items, dims[0])
+        return super().sc_vectors(interp, args, kwargs, node)
+
+    def sc_DataArray(self, interp, args, kwargs, node):
+        data = args[0] if args else kwargs.get('data')
+        if isinstance(data, SVar) and self._is_arr(data):
+            r = self.new(interp, None, data.unit, data.dtype, why='data array of symbolic scalars')
+            r.kind = 'dataarray'
+            r.members.update({k: v for k, v in data.members.items() if k in ('items', 'rows', 'dims')})
+            r.members['coords'] = dict(kwargs.get('coords') or {})
+            return r
+        return super().sc_DataArray(interp, args, kwargs, node)
+
     def sc_arange(self, interp, args, kwargs, node):
         nums = [x for x in args[1:]]
         if args and nums and all(isinstance(x, int) and not isinstance(x, bool) for x in nums) and len(nums) <= 3:
@@ -372,7 +445,24 @@ class WitnessModel(Model):
             return r
         return super().sc_arange(interp, args, kwargs, node)
 
+    LIFTED = {'norm', 'dot', 'cross', 'exp', 'sqrt', 'abs', 'sin', 'cos', 'tan', 'asin', 'acos', 'atan', 'atan2', 'where', 'reciprocal',
+              'log', 'to_unit', 'isfinite', 'isnan', 'round', 'values', 'variances', 'stddevs'}
+
     def call_ext(self, interp, path, args, kwargs, node):
+        mod, _, name = path.rpartition('.')
+        if mod in ('scipp', 'scipp.spatial') and name in self.LIFTED and any(self._is_arr(a) for a in list(args) + list(kwargs.values()) if isinstance(a, SVar)):
+            arrs = [a for a in list(args) + list(kwargs.values()) if isinstance(a, SVar) and self._is_arr(a)]
+            if any(rows_of(a) is not None for a in arrs):
+                raise AnalysisError(f'{path} on a 2-d array of symbolic scalars at {interp.where(node)}')
+            n = len(items_of(arrs[0]))
+            if any(len(items_of(a)) != n for a in arrs):
+                raise RaiseSignal('DimensionError', node, interp.where(node), ('length mismatch',))
+            out = []
+            for i in range(n):
+                pa = [items_of(a)[i] if isinstance(a, SVar) and self._is_arr(a) else a for a in args]
+                ka = {k: (items_of(a)[i] if isinstance(a, SVar) and self._is_arr(a) else a) for k, a in kwargs.items()}
+                out.append(super().call_ext(interp, path, pa, ka, node))
+            return self.array(interp, out, arrs[0].members['dims'][0])
         if path == 'operator.attrgetter' and len(args) == 1 and isinstance(args[0], str):
             return _AttrGetter(args[0])
         if path == 'operator.itemgetter' and len(args) == 1:
@@ -385,7 +475,7 @@ class WitnessModel(Model):
         if name == 'bool' and args and isinstance(args[0], SVar) and 'concrete' in args[0].members:
             return bool(args[0].members['concrete'])
         if name in ('round', 'int') and len(args) == 1 and isinstance(args[0], SVar) and not self._is_arr(args[0]) \
-                and args[0].kind in ('raw', 'pyfloat') and self.value(args[0]) is not None:
+                and (args[0].kind in ('raw', 'pyfloat') or args[0].unit in (DIMENSIONLESS, NO_UNIT)) and self.value(args[0]) is not None:
             # a count derived from the data: decided at the witness
             v = self.value(args[0])
             return round(v) if name == 'round' else int(v)
